@@ -34,9 +34,25 @@ def main():
     ctx["progress"] = progress
     rs = np.random.RandomState(a.seed)
     t0 = time.time()
-    with np.errstate(all="ignore"):
-        res = fn(rs, a.n, ctx)
-    out = res.to_json()
+    import traceback
+    partial = oracles.Result()
+    ctx["partial"] = partial
+    try:
+        with np.errstate(all="ignore"):
+            res = fn(rs, a.n, ctx)
+        out = res.to_json()
+    except Exception as ex:  # noqa: BLE001
+        # an exception escaping the oracle is itself a finding about the implementation (the oracles catch what
+        # the properties allow to be raised): report it with the traceback and the last recorded input
+        last = None
+        try:
+            last = json.load(open(prog))
+        except Exception:  # noqa: BLE001
+            pass
+        out = {"evaluations": 0, "distinct_nontrivial": 0, "samples": [], "stats": {},
+               "violations": [{"key": f"{a.pid}:unexpected-{type(ex).__name__}",
+                               "what": f"{type(ex).__name__}: {ex} (escaped the oracle; traceback in the replay)",
+                               "replay": {"traceback": traceback.format_exc()[-3000:], "last_input": last, "seed": a.seed}}]}
     out["wall_s"] = time.time() - t0
     with open(a.out, "w") as f:
         json.dump(out, f, default=str)
